@@ -94,6 +94,8 @@ fn fill_size(path: &str, fill: u8) -> usize {
         (1, "/a") => 4095,
         (1, "/b") => 4096,
         (1, "/c") => 64,
+        // fill 2: every stream occupies exactly one mini sector
+        (2, _) => 64,
         (_, "/a") => 300,
         (_, "/b") => 5000,
         (_, "/c") => 200,
@@ -281,6 +283,49 @@ pub fn alphabet(held: &[String], streams: &[String], rich: bool) -> Vec<HAct> {
         v.push(HAct::Comp(Op::RemoveStream("/e".into())));
     }
     v
+}
+
+/// Handles on ALL of n one-mini-sector streams; every sequence up to the depth over
+/// {set_len(0), append 128 bytes, flush} per handle: every order in which mini sectors are
+/// released (tail trimmed or not) and taken again through different handles.
+pub fn explore_many(ctx: &Ctx, version: u16, names: &[&str], depth: usize) -> HStats {
+    let setup: Vec<Op> = names.iter().map(|n| Op::CreateStream(format!("/{}", n))).collect();
+    let held: Vec<String> = names.iter().map(|n| format!("/{}", n)).collect();
+    let st = StartState { setup, streams: held.clone() };
+    let mut alpha = Vec::new();
+    for h in 0..held.len() {
+        alpha.push(HAct::SetLen(h, 0));
+        alpha.push(HAct::Append(h, 128));
+        alpha.push(HAct::Flush(h));
+    }
+    let counts: Vec<(u64, u64)> = alpha
+        .par_iter()
+        .map(|first| {
+            let mut cnt = (0u64, 0u64);
+            let mut seq = vec![first.clone()];
+            let case = HandleHist { version, setup: st.setup.clone(), held: held.clone(), actions: seq.clone(), fill: 2 };
+            cnt.0 += 1;
+            cnt.1 += 1;
+            match run_case(&case) {
+                Some((class, msg)) => {
+                    let core = msg.splitn(2, ": ").nth(1).unwrap_or(&msg).to_string();
+                    ctx.report(Violation { sig: format!("{}:{}", class, sig_norm(&core).chars().take(90).collect::<String>()), class, msg, replay: json!({"kind": "handles", "handles": case}) });
+                }
+                None => {
+                    if depth > 1 {
+                        rec(ctx, version, &st, &held, &alpha, &mut seq, depth, &mut cnt, 2);
+                    }
+                }
+            }
+            cnt
+        })
+        .collect();
+    let mut stats = HStats { start_states: 1, handle_choices: 1, sequences: 0, actions: 0 };
+    for (a, b) in counts {
+        stats.sequences += a;
+        stats.actions += b;
+    }
+    stats
 }
 
 pub struct HStats {
